@@ -109,3 +109,10 @@ def replay(scn):
     else:
         variants = [kinds, ["f" if (n == "x") else k for n, k in zip(i["a"]["dims"], kinds)]]
     return replay_take(scn, variants, signature)
+
+
+
+def post(tier, seed, ctx):
+    """code -> spec: randomly driven calls (up to 4-d, axes up to 5 labels) recorded and validated by TLC against spec/TraceOps.tla"""
+    from .. import trace_ops
+    trace_ops.validate(PROP, tier, seed, ctx, ['slice'])
